@@ -47,7 +47,8 @@ def observe(p, call):
             doc = p.parse(srcobj, scripting=bool(opts.get("scripting")))
         else:
             doc = p.parseFragment(srcobj, container=opts.get("container", "div"), scripting=bool(opts.get("scripting")))
-        return ["ok", trees.enc_forest(trees.coalesce(trees.dom_forest(doc))),
+        forest = trees.dom_forest(doc) if hasattr(doc, "childNodes") else trees.et_forest(doc)
+        return ["ok", trees.enc_forest(trees.coalesce(forest)),
                 [[list(pos), code] for pos, code, _ in p.errors]]
     except ParseError as e:
         return ["ParseError", str(e)]
@@ -150,7 +151,7 @@ class C12(Plugin):
                     if kind == "fragment":
                         opts["container"] = rng.choice(["div", "td", "select", "title", "textarea", "svg", "table", "pre"])
                     calls.append([kind, src, opts])
-                yield {"k": 1, "calls": calls}
+                yield {"k": 1, "calls": calls, "tb": rng.choice(["dom", "dom", "etree"])}
 
     def _handler_id(self, f):
         return getattr(f, "__name__", repr(f))
@@ -249,12 +250,14 @@ class C12(Plugin):
                     diffs.append([i, a, b])
             return [res, diffs]
         # histories
-        shared = html5lib.HTMLParser(tree=html5lib.getTreeBuilder("dom"))
+        tbname = case.get("tb", "dom")
+        mk = (lambda: html5lib.getTreeBuilder("etree", fullTree=True)) if tbname == "etree" else (lambda: html5lib.getTreeBuilder("dom"))
+        shared = html5lib.HTMLParser(tree=mk())
         diffs = []
         res = []
         for i, call in enumerate(case["calls"]):
             a = observe(shared, call)
-            b = observe(html5lib.HTMLParser(tree=html5lib.getTreeBuilder("dom")), call)
+            b = observe(html5lib.HTMLParser(tree=mk()), call)
             res.append(a[0])
             if a != b:
                 diffs.append([i, a[0], b[0]])
